@@ -218,6 +218,71 @@ class Arr:
         return f"Arr({self.data})"
 
 
+def _ra(a, b):
+    return num_norm(_r(a) + _r(b))
+
+
+def _rs(a, b):
+    return num_norm(_r(a) - _r(b))
+
+
+def _rm(a, b):
+    return num_norm(_r(a) * _r(b))
+
+
+class Cx:
+    """A complex value with folded real and imaginary parts (kernels that write `(... + 1j*pi*L ...).real`)."""
+
+    __yadsa_native__ = True
+
+    def __init__(self, re, im):
+        self.real, self.imag = num_norm(re), num_norm(im)
+
+    @staticmethod
+    def of(v):
+        return v if isinstance(v, Cx) else Cx(v, 0)
+
+    def __add__(self, o):
+        o = Cx.of(o)
+        return Cx(_ra(self.real, o.real), _ra(self.imag, o.imag))
+
+    __radd__ = __add__
+
+    def __sub__(self, o):
+        o = Cx.of(o)
+        return Cx(_rs(self.real, o.real), _rs(self.imag, o.imag))
+
+    def __rsub__(self, o):
+        return Cx.of(o) - self
+
+    def __neg__(self):
+        return Cx(_rs(0, self.real), _rs(0, self.imag))
+
+    def __mul__(self, o):
+        o = Cx.of(o)
+        return Cx(_rs(_rm(self.real, o.real), _rm(self.imag, o.imag)), _ra(_rm(self.real, o.imag), _rm(self.imag, o.real)))
+
+    __rmul__ = __mul__
+
+    def __truediv__(self, o):
+        if isinstance(o, Cx):
+            raise Undecided("division by a complex value")
+        inv = num_norm(A.Rat.const(1) / _r(o))
+        return Cx(_rm(self.real, inv), _rm(self.imag, inv))
+
+    def __pow__(self, n):
+        n = num_norm(n)
+        if not isinstance(n, int) or n < 0 or n > 6:
+            raise Undecided("power of a complex value")
+        out = Cx(1, 0)
+        for _ in range(n):
+            out = out * self
+        return out
+
+    def __repr__(self):
+        return f"Cx({self.real}, {self.imag})"
+
+
 class NpInt(int):
     """An integer that came out of a numpy array element-wise (np.int64): equal to the int, but not a plain Python int."""
 
@@ -1029,7 +1094,7 @@ class Evaluator:
         if isinstance(v, float):
             return num_norm(A.frac(v))
         if isinstance(v, complex):
-            raise Undecided("complex literal")
+            return Cx(num_norm(A.frac(v.real)), num_norm(A.frac(v.imag)))
         return v
 
     def e_Name(self, n, env):
@@ -1093,7 +1158,7 @@ class Evaluator:
         if isinstance(n.op, ast.USub):
             if isinstance(v, Arr):
                 return v._map(lambda x: num_norm(-_r(x)))
-            if is_inf(v):
+            if is_inf(v) or isinstance(v, Cx):
                 return -v
             return num_norm(-_r(v)) if isinstance(v, Rat) else -v
         if isinstance(n.op, ast.UAdd):
@@ -1118,9 +1183,17 @@ class Evaluator:
         if getattr(a, "__yadsa_native__", False) or getattr(b, "__yadsa_native__", False):
             import operator as _op
 
-            fn = {ast.Add: _op.add, ast.Sub: _op.sub, ast.Mult: _op.mul, ast.Div: _op.truediv}.get(type(op))
+            fn = {ast.Add: _op.add, ast.Sub: _op.sub, ast.Mult: _op.mul, ast.Div: _op.truediv, ast.Pow: _op.pow}.get(type(op))
             if fn is None:
                 raise Undecided("operator on a native model object")
+            if isinstance(a, Cx) or isinstance(b, Cx):
+                if isinstance(op, ast.Pow):
+                    return fn(Cx.of(a), b)
+                if isinstance(op, ast.Div):
+                    if isinstance(b, Cx):
+                        raise Undecided("division by a complex value")
+                    return fn(a, b)
+                return fn(Cx.of(a), Cx.of(b))
             return fn(a, b)
         if isinstance(a, ObjVal) or isinstance(b, ObjVal):
             name = self._DUNDER.get(type(op))
@@ -2083,14 +2156,54 @@ _EXT_CALLS = {
     "os.environ.get": lambda ev, k, d=None: d,
 }
 
+UNIT_ARGS = ("x", "z", "xB", "y")  # integration / Bjorken variables live in (0, 1)
+
+
+def _above_one(r):
+    """+1 if the argument is evidently > 1 on the domain, -1 if evidently < 1, None otherwise."""
+    try:
+        return A.definite_sign(_r(r) - 1, unit=UNIT_ARGS)
+    except (Undecided, ZeroDivisionError, TypeError):
+        return None
+
+
+def _li2_real(ev, x):
+    """yadism's li2 is CERNlib DDILOG: the *real part* of Li2, also above the branch point:
+    Re Li2(w) = pi^2/3 - ln^2(w)/2 - Li2(1/w) for w > 1."""
+    x = num_norm(x)
+    if isinstance(x, Cx):
+        raise Undecided("dilogarithm of a complex value")
+    r = _r(x)
+    if _above_one(r) == 1:
+        pi = A.sym("pi", positive=True)
+        lw = A.fn_log(r)
+        return num_norm(pi * pi * Fraction(1, 3) - lw * lw * Fraction(1, 2) - A.fn_li2(A.Rat.const(1) / r))
+    return num_norm(A.fn_li2(r))
+
+
+def _nielsen(ev, n, p, x):
+    """Nielsen S_{n,p}(x) (complex-valued implementation): S_{1,1} = Li2, S_{2,1} = Li3 with their continuations above 1
+    (principal branch, Im Li2(w) = -pi ln w, Im Li3(w) = -pi ln^2(w)/2); other indices stay opaque."""
+    n, p, x = num_norm(n), num_norm(p), num_norm(x)
+    if p == 1 and n in (1, 2) and not isinstance(x, Cx):
+        r = _r(x)
+        side = _above_one(r)
+        pi = A.sym("pi", positive=True)
+        if side == 1:
+            lw = A.fn_log(r)
+            if n == 1:
+                return Cx(pi * pi * Fraction(1, 3) - lw * lw * Fraction(1, 2) - A.fn_li2(A.Rat.const(1) / r), -(pi * lw))
+            return Cx(A.fn_li3(A.Rat.const(1) / r) + pi * pi * Fraction(1, 3) * lw - lw * lw * lw * Fraction(1, 6), -(pi * lw * lw * Fraction(1, 2)))
+        if side == -1 or r.const_value() is not None:
+            return Cx(A.fn_li2(r) if n == 1 else A.fn_li3(r), 0)
+    return A.opaque(f"S{n}{p}", (x,))
+
+
 PROJECT_SUMMARIES = {
-    # yadism's own dilogarithm (CERNlib DDILOG re-implementation): trusted to be Li2
-    "yadism.coefficient_functions.special::li2": lambda ev, x: num_norm(A.fn_li2(_r(num_norm(x)))),
-    # Nielsen generalised polylogarithm S_{n,p}(x): kept as an opaque atom (its real part is what
-    # every caller projects out with `.real`)
-    "yadism.coefficient_functions.special.nielsen::nielsen": lambda ev, n, p, x: A.opaque(
-        f"S{num_norm(n)}{num_norm(p)}", (num_norm(x),)
-    ),
+    # yadism's own dilogarithm (CERNlib DDILOG re-implementation): trusted to be (the real part of) Li2
+    "yadism.coefficient_functions.special::li2": _li2_real,
+    # Nielsen generalised polylogarithm S_{n,p}(x)
+    "yadism.coefficient_functions.special.nielsen::nielsen": _nielsen,
     # N3LO grid interpolator: an opaque callable
     "yadism.coefficient_functions.heavy.n3lo::interpolator": lambda ev, *a, **k: OpaqueObj("n3lo_interpolator"),
     # logging set-up has no bearing on any property
